@@ -193,6 +193,10 @@ INT_POOLS = {
 }
 
 
+# names whose text contains the separators of the notation next to the names they are made of: str() of a ranking is
+# not injective on them ("Doe, Jane" alone prints like the tie of "Doe" and "Jane"; "x}, {y" like two buckets)
+COMPOSITE_POOL = ["Doe", "Jane", "Doe, Jane", "x", "y", "x}, {y", "a", "b", "a, b", "x}, {y}, {Doe", "Jane, a", "y, x",
+                  "b}, {a", "c", "c, c", "Doe}, {Jane"]
 MIXED_STR_POOL = ["1", "2", "3", "4", "10", "5", "b", "6", "7", "8", "9", "11", "c", "12", "13", "14"]
 
 
@@ -205,6 +209,8 @@ def _pool(kind, n):
             pool.append(str(k))
             k += 1
         return pool
+    if kind == "composite":
+        return list(COMPOSITE_POOL) + ["n%d" % i for i in range(max(0, n - len(COMPOSITE_POOL)))]
     if kind == "str":
         pool = list(STR_POOL_SIMPLE)
     elif kind == "strodd":
@@ -233,9 +239,12 @@ def _pool(kind, n):
 
 @st.composite
 def element_names(draw, n, kinds=("dense", "dense1", "mult8", "mult32", "negs", "big", "str", "strodd", "mixedstr",
-                                  "collide")):
+                                  "collide", "composite")):
     kind = draw(st.sampled_from(kinds))
     pool = _pool(kind, n)
+    if kind == "composite":
+        # keep the composed names next to their parts: a prefix of the pool, in a drawn order
+        return kind, list(draw(st.permutations(pool[:max(n, min(3, len(pool)))])))[:n]
     if kind == "collide":
         # keep colliding partners together: the first names of the pool, in a drawn order
         k = max(2, n + (n % 2))
@@ -293,7 +302,7 @@ def perturb(draw, base, nmoves):
 
 
 SHAPES = ["complete", "incomplete", "sparse_block", "near_unanimous", "identical", "near_unanimous_incomplete",
-          "cyclic", "cyclic_incomplete", "block_cyclic", "cyclic_ties", "mixture", "floaters", "camps"]
+          "cyclic", "cyclic_incomplete", "block_cyclic", "cyclic_ties", "mixture", "floaters", "camps", "singletons"]
 BASE_SHAPES = SHAPES[:9]
 # not in SHAPES (thousands of rankings are too heavy for the generic checks): a few distinct ballots with large
 # multiplicities, i.e. large scores with small absolute differences between candidates
@@ -317,6 +326,11 @@ def datasets(draw, max_n=7, max_m=5, min_n=1, shapes=None, kinds=None, allow_emp
     if shape == "complete":
         for _ in range(m):
             rankings.append(draw(weak_order_of(names)))
+    elif shape == "singletons":
+        # every ranking ranks one element (sometimes two): the all-tied ranking is then hard to beat
+        for _ in range(max(m, 2)):
+            k = draw(st.sampled_from([1, 1, 1, 2]))
+            rankings.append(draw(weak_order_of(list(draw(st.permutations(names)))[:k])))
     elif shape == "incomplete":
         for _ in range(m):
             mask = draw(st.lists(st.booleans(), min_size=n, max_size=n))
@@ -498,6 +512,12 @@ def datasets(draw, max_n=7, max_m=5, min_n=1, shapes=None, kinds=None, allow_emp
     if allow_duplicates and rankings and draw(st.integers(0, 5)) == 0:
         i = draw(st.integers(0, len(rankings) - 1))
         rankings.append([list(b) for b in rankings[i]])
+    if allow_duplicates and rankings and draw(st.integers(0, 9)) == 0:
+        # many rankings (numbers of rankings m for which m * (1/m) != 1.0 in floating point are among them)
+        target = draw(st.sampled_from([6, 7, 10, 13, 15, 19]))
+        while len(rankings) < target:
+            i = draw(st.integers(0, len(rankings) - 1))
+            rankings.append([list(b) for b in rankings[i]])
     if allow_empty_rankings and draw(st.integers(0, 5)) == 0:
         i = draw(st.integers(0, len(rankings)))
         rankings.insert(i, [])
